@@ -155,6 +155,12 @@ def spaces(tier, seed):
     instants = [1000000000, 1109548800, 1206843000, 1206846600, 1256432400, 1256436000, 1300000000, 1352008800,
                 1457852400, 1520000000, 1583020800, 1616893200, 1698541200, 2000000000, 2147483647, 2147483648,
                 3000000000, 4102444800, 5000000000, 7258118400, 9000000000, 9999999999, 1719792000, 1735689599]
+    # instants around every clock change (2020-2022) of the zone that is TIMEZONE, incl. both passes of a repeated hour;
+    # also requested timezone-aware, so that the *instant* (not only the wall clock) is pinned
+    from .c12 import REP, DST_DELTAS, transitions
+    dstz = [z for z in (pytz.common_timezones if T else REP) if z in pytz.all_timezones_set and transitions(z)]
+    sp.append(Product("epoch-dst-transitions", {"z": dstz, "t": range(6), "d": sorted(set(DST_DELTAS + [-1800, 1800, -3600, 3600, 3599, -3599])),
+                                                "suffix": ["", "123456"], "aware": [None, True], "to": [None, "UTC"]}))
     sp.append(Product("epoch-timezones", {"n": instants, "suffix": ["", "123"], "neg": [False], "tz": [z[1] for z in zones()]}))
     return sp
 
@@ -182,7 +188,45 @@ def expected_epoch(n, suffix, neg, tz):
     return loc + timedelta(microseconds=us)
 
 
+def run_epoch_dst(c):
+    from .c12 import transitions
+    tr = transitions(c["z"])
+    if c["t"] >= len(tr):
+        return None
+    u = tr[c["t"]] + timedelta(seconds=c["d"])
+    n = int((u - EPOCH).total_seconds())
+    us = int(c["suffix"] or 0)
+    st = {"TIMEZONE": c["z"]}
+    if c["aware"]:
+        st["RETURN_AS_TIMEZONE_AWARE"] = True
+    if c["to"]:
+        st["TO_TIMEZONE"] = c["to"]
+    inst = pytz.utc.localize(u + timedelta(microseconds=us))
+    exp = inst.astimezone(pytz.timezone(c["to"] or c["z"]))
+    s = str(n) + c["suffix"]
+    o = api.outcome_of(api.gdd, s, ["en"], None, None, st)
+    kind = None
+    if o[0] == "exc":
+        kind, got = "exception:" + o[1], o[1:]
+    else:
+        r = got = o[1].date_obj
+        if r is None:
+            kind = "none"
+        elif (r.tzinfo is not None) != bool(c["aware"]):
+            kind = "awareness"
+        elif r.replace(tzinfo=None) != exp.replace(tzinfo=None):
+            kind = "wrong-wall-clock"
+        elif r.tzinfo is not None and r.utcoffset() != exp.utcoffset():
+            kind = "wrong-instant"
+    if kind is None:
+        return "epoch-ok", True, None
+    return "epoch-bad", True, {"cls": {"form": "epoch-dst", "aware": bool(c["aware"]), "to": c["to"], "kind": kind},
+                               "expected": exp, "observed": got, "detail": {"string": s, "settings": st}}
+
+
 def run_case(sub, c):
+    if sub == "epoch-dst-transitions":
+        return run_epoch_dst(c)
     if sub.startswith("epoch"):
         n = c["n"] if "n" in c else c["day"] * 86400 + c["sec"]
         if not 10 ** 9 <= n < 10 ** 10:
@@ -244,6 +288,8 @@ def run_case(sub, c):
 
 
 def describe(sub, c):
+    if sub == "epoch-dst-transitions":
+        return {"TIMEZONE": c["z"], "transition": c["t"], "offset_s": c["d"]}
     if sub.startswith("epoch"):
         n = c["n"] if "n" in c else c["day"] * 86400 + c["sec"]
         return {"string": ("-" if c["neg"] else "") + str(n) + c["suffix"], "TIMEZONE": c["tz"]}
